@@ -162,6 +162,11 @@ def run_unit_once(unit_name, canary=None, extra=(), suffix='', timeout=600, adde
     if other:
         res['status'] = 'undecided'
         res['reason'] = 'unclassified verus error: ' + other[0]['message'][:200]
+    elif any(s['origin'].startswith('external:') and 'fmt.rs' in s['origin'] for f in real for s in f['spans']):
+        # vstd asks for a proof that a formatted value's Display/Debug impl is modelled; for a type the shims do not model
+        # (e.g. `&mut &str`) that obligation cannot be met: a tool limit, not a panic of format!
+        res['status'] = 'undecided'
+        res['reason'] = 'a formatting macro is applied to a value whose Display/Debug implementation the shims do not model (vstd fmt precondition)'
     elif real and res['lost_anchors']:
         res['status'] = 'undecided'
         res['reason'] = 'proof hints lost their anchors (%s) and the proof no longer goes through; cannot tell a broken property from a lost hint' % '; '.join(res['lost_anchors'])[:600]
